@@ -50,23 +50,42 @@ func c09(c *Ctx) {
 		}
 		pfx := ""
 		var prefixedObj types.Object
-		ast.Inspect(fi.Body(), func(n ast.Node) bool {
-			as, ok := n.(*ast.AssignStmt)
-			if !ok || len(as.Lhs) != 1 || len(as.Rhs) != 1 {
-				return true
-			}
-			call, ok := ast.Unparen(as.Rhs[0]).(*ast.CallExpr)
+		// append([]byte(<const>), <key parameter>...)
+		prefixOfExpr := func(e ast.Expr) (string, bool) {
+			call, ok := ast.Unparen(e).(*ast.CallExpr)
 			if !ok || astx.Builtin(info, call) != "append" || len(call.Args) != 2 || !call.Ellipsis.IsValid() {
-				return true
+				return "", false
 			}
 			if conv, ok := ast.Unparen(call.Args[0]).(*ast.CallExpr); ok && astx.IsConversion(info, conv) && len(conv.Args) == 1 {
 				if s, ok := astx.ConstString(info, conv.Args[0]); ok {
 					if id, ok := ast.Unparen(call.Args[1]).(*ast.Ident); ok && astx.Obj(info, id) == keyParam {
-						pfx = s
-						if lid, ok := as.Lhs[0].(*ast.Ident); ok {
-							prefixedObj = astx.Obj(info, lid)
-						}
+						return s, true
 					}
+				}
+			}
+			return "", false
+		}
+		direct := false // the prefixed key is built where the database is accessed
+		ast.Inspect(fi.Body(), func(n ast.Node) bool {
+			switch x := n.(type) {
+			case *ast.AssignStmt:
+				if len(x.Lhs) != 1 || len(x.Rhs) != 1 {
+					return true
+				}
+				if s, ok := prefixOfExpr(x.Rhs[0]); ok {
+					pfx = s
+					if lid, ok := x.Lhs[0].(*ast.Ident); ok {
+						prefixedObj = astx.Obj(info, lid)
+					}
+				}
+			case *ast.CallExpr:
+				se, ok := ast.Unparen(x.Fun).(*ast.SelectorExpr)
+				if !ok || (se.Sel.Name != "Put" && se.Sel.Name != "Get") || len(x.Args) < 1 {
+					return true
+				}
+				if s, ok := prefixOfExpr(x.Args[0]); ok && pfx == "" {
+					pfx = s
+					direct = true
 				}
 			}
 			return true
@@ -84,6 +103,9 @@ func c09(c *Ctx) {
 				continue
 			}
 			if id, ok := ast.Unparen(call.Args[0]).(*ast.Ident); ok && astx.Obj(info, id) == prefixedObj && prefixedObj != nil {
+				okUse = true
+			}
+			if _, ok := prefixOfExpr(call.Args[0]); ok && direct {
 				okUse = true
 			}
 		}
